@@ -1243,13 +1243,30 @@ func (builder *ExecutorBuilder) addGroupHashAgg(node hybridqp.QueryNode, frags *
 }
 
 func (builder *ExecutorBuilder) addBinaryTreeExchange(exchange Exchange, nLeaf int) *TransformVertex {
+	return builder.addBinaryTreeExchangeFrom(exchange, 0, nLeaf)
+}
+
+// addBinaryTreeExchangeFrom builds the subtree whose left-most leaf is trait number first.
+// A leaf gets the same per-trait set-up as a child of addDefaultExchange.
+func (builder *ExecutorBuilder) addBinaryTreeExchangeFrom(exchange Exchange, first int, nLeaf int) *TransformVertex {
 	if nLeaf < 2 {
 		if exchange.EType() == NODE_EXCHANGE && exchange.ERole() == CONSUMER_ROLE {
 			child := builder.addConsumerToDag(exchange.Clone().(*LogicalExchange))
 			return child
 		}
 		childNode := exchange.Children()[0]
-		child, _ := builder.addNodeToDag(childNode.Clone())
+		clone := childNode.Clone()
+		if traits := exchange.ETraits(); first < len(traits) {
+			if builder.info != nil && exchange.EType() != READER_EXCHANGE {
+				if builder.traits != nil && first < len(builder.traits.shards) {
+					builder.info.ShardID = builder.traits.shards[first]
+				} else if builder.csTraits != nil && first < len(builder.csTraits.ptQuerys) {
+					builder.info.PtQuery = &builder.csTraits.ptQuerys[first]
+				}
+			}
+			clone.ApplyTrait(traits[first])
+		}
+		child, _ := builder.addNodeToDag(clone)
 		return child
 	}
 
@@ -1259,9 +1276,9 @@ func (builder *ExecutorBuilder) addBinaryTreeExchange(exchange Exchange, nLeaf i
 	nLeafOfLeftChild := (nLeaf + 1) / 2
 	nLeafOfRightChild := nLeaf / 2
 
-	children = append(children, builder.addBinaryTreeExchange(exchange.Clone().(*LogicalExchange), nLeafOfLeftChild))
+	children = append(children, builder.addBinaryTreeExchangeFrom(exchange.Clone().(*LogicalExchange), first, nLeafOfLeftChild))
 	inRowDataTypes = append(inRowDataTypes, exchange.RowDataType())
-	children = append(children, builder.addBinaryTreeExchange(exchange.Clone().(*LogicalExchange), nLeafOfRightChild))
+	children = append(children, builder.addBinaryTreeExchangeFrom(exchange.Clone().(*LogicalExchange), first+nLeafOfLeftChild, nLeafOfRightChild))
 	inRowDataTypes = append(inRowDataTypes, exchange.RowDataType())
 
 	merge, err := builder.createExchangeProcessor(exchange, inRowDataTypes)
